@@ -117,6 +117,14 @@ def translate_source():
     except Exception as e:
         open(out9, 'w').write('/-! source-level translation of UbxCfgValGet.unpack failed on this tree -/\n')
         status['Valget'] = 'untranslatable: translator failed (' + type(e).__name__ + ')'
+    # and the constructors of VALSET / VALGET-poll with Fields.pack over what they build
+    out11 = os.path.join(LEAN, 'UbxModel', 'Gen', 'SrcValset.lean')
+    try:
+        r = sh([PY, os.path.join(ROOT, 'tools', 'pysrc2lean_valset.py'), REPO, out11], timeout=120)
+        status['Valset'] = r.stdout.strip().splitlines()[-1]
+    except Exception as e:
+        open(out11, 'w').write('/-! source-level translation of the VALSET / VALGET constructors failed on this tree -/\n')
+        status['Valset'] = 'untranslatable: translator failed (' + type(e).__name__ + ')'
     # and the frame registry
     out10 = os.path.join(LEAN, 'UbxModel', 'Gen', 'SrcFactory.lean')
     try:
@@ -150,6 +158,8 @@ SRC_THEOREMS = {
     'Render': ['r_lever', 'r_gnssid', 'r_fusion', 'r_gpsfix', 'r_flags_enable', 'r_alg_flags', 'r_init1', 'r_init2', 'r_sens1', 'r_sens2', 'r_nav_flags',
                'r_mode', 'r_proto'],
     'Valget': ['unpack_consumed', 'valget_body_ok', 'valget_body_err', 'valget_loop', 'hdr_decode', 'valget_prelude', 'valget_unpack'],
+    'Valset': ['forFields_append', 'pack_cfgs', 'pack_uint', 'names_fresh', 'add_fresh', 'valset_loop', 'valset_init', 'valset_pack', 'poll_loop', 'poll_init',
+               'pack_u4s', 'poll_pack'],
     'Factory': ['getitem_setitem', 'getitem_err', 'lookupR_register', 'agree_empty', 'fac_register', 'fac_build_with_data', 'fac_build'],
     'Gpsd': ['g_parse_version', 'g_devices_loop', 'g_parse_devices', 'g_line', 'g_lines', 'g_parse_gpsd_msg', 'absG_init', 'g_ready'],
     'Server': ['srv_check_poll', 'srv_check_ack_nak', 'srv_check_mga', 'srv_send', 'srv_wait', 'srv_set', 'srv_set_mga',
@@ -167,6 +177,7 @@ TRANSFERS = {   # module -> (classes it needs, theorems)
     'TransferHelpers': (['Helpers'], ['src_enable_gnss_spec', 'src_disable_gnss_spec', 'src_lever_arm_first']),
     'TransferRender': (['Render'], ['src_renderers_total']),
     'TransferValget': (['Valget', 'CfgItem', 'CfgKeyData', 'Types'], ['src_valget_terminates', 'src_valget_dichotomy', 'src_valget_reencode']),
+    'TransferValset': (['Valset', 'CfgItem', 'CfgKeyData', 'Types'], ['src_valset_is_payload', 'src_valset_parts', 'src_valset_count', 'src_poll_is_payload']),
     'TransferFactory': (['Factory'], ['src_registry_refines', 'src_last_registration_wins', 'src_registration_local', 'src_unregistered']),
     'TransferGpsd': (['Gpsd'], ['src_chunk_never_raises', 'src_decision_table', 'src_ready_after', 'src_requested_kept']),
     'TransferServer': (['Server', 'UbxParser'], ['src_set_returns_bounded', 'src_set_mga_returns_bounded', 'src_poll_returns_bounded', 'src_set_result',
